@@ -41,7 +41,7 @@ func clientKeytab() (*keytab.Keytab, string) {
 
 // every second configuration asks for name canonicalization (the request then carries the canonicalize option: what
 // a reply has to say to be the answer to it stays the same)
-var c09Configs int64
+var c09Configs, c09Clients int64
 
 func c09Config(skew time.Duration, port int) *config.Config {
 	s := fmt.Sprintf("[libdefaults]\n default_realm = %s\n dns_lookup_kdc = false\n udp_preference_limit = 1\n clockskew = %d\n noaddresses = true\n", c09Realm, int(skew/time.Second))
@@ -263,7 +263,7 @@ func c09Exchange(t *testing.T, m *Model, v *Verdict, rng *RNG, c repCase, preaut
 		var a messages.ASReq
 		if a.Unmarshal(req) == nil {
 			asCount++
-			rq := kdcReqInfo{cname: a.ReqBody.CName, realm: a.ReqBody.Realm, nonce: a.ReqBody.Nonce, sname: a.ReqBody.SName, addrs: a.ReqBody.Addresses, padata: a.PAData}
+			rq := kdcReqInfo{cname: a.ReqBody.CName, realm: a.ReqBody.Realm, nonce: a.ReqBody.Nonce, sname: a.ReqBody.SName, addrs: a.ReqBody.Addresses, padata: a.PAData, raw: req}
 			var padata types.PADataSequence
 			if c.secret == "password" {
 				padata = hintsFor(c.hints, c.et, c09Realm, cname)
@@ -316,11 +316,17 @@ func c09Exchange(t *testing.T, m *Model, v *Verdict, rng *RNG, c repCase, preaut
 	defer kdc.close()
 	cfg := c09Config(c.skew, kdc.port)
 	var cl *client.Client
+	// every third client keeps the library's default: FAST negotiation on (the request carries PA-REQ-ENC-PA-REP, the
+	// KDC answers it as RFC 6806 section 11 says; every other check of the reply is made all the same)
+	var fastOpt []func(*client.Settings)
+	if atomic.AddInt64(&c09Clients, 1)%3 != 0 {
+		fastOpt = append(fastOpt, client.DisablePAFXFAST(true))
+	}
 	if c.secret == "keytab" {
 		kt, _ := clientKeytab()
-		cl = client.NewWithKeytab(c09User, c09Realm, kt, cfg, client.DisablePAFXFAST(true))
+		cl = client.NewWithKeytab(c09User, c09Realm, kt, cfg, fastOpt...)
 	} else {
-		cl = client.NewWithPassword(c09User, c09Realm, clientPassword, cfg, client.DisablePAFXFAST(true))
+		cl = client.NewWithPassword(c09User, c09Realm, clientPassword, cfg, fastOpt...)
 	}
 	defer cl.Destroy()
 	var goRes string
@@ -397,6 +403,7 @@ func c09Defects() []repDefect {
 		{"encsname", false, func(c *repCase, r *RNG) { c.encSName = []string{"krbtgt", "OTHER.REALM"} }},
 		{"encsname-joined", false, func(c *repCase, r *RNG) { c.encSName = []string{"="} }},
 		{"encsname-short", false, func(c *repCase, r *RNG) { c.encSName = []string{"krbtgt"} }},
+		{"encsname-empty", false, func(c *repCase, r *RNG) { c.encSName = []string{} }},
 		{"encsrealm", false, func(c *repCase, r *RNG) { c.encSRealm = "OTHER.REALM" }},
 		{"reqaddrs+same", false, func(c *repCase, r *RNG) {
 			c.reqAddrs = []types.HostAddress{v4, v6}
@@ -602,7 +609,7 @@ func TestC09(t *testing.T) {
 			c09Referral(t, m, v, rng, c)
 		}
 		for _, d := range defs {
-			if !exchangeSafe(d) || d.asOnly || d.name == "tktsname-other" || d.name == "tktsname-empty" || d.name == "encsname" || d.name == "encsname-short" {
+			if !exchangeSafe(d) || d.asOnly || d.name == "tktsname-other" || d.name == "tktsname-empty" || d.name == "encsname" || d.name == "encsname-short" || d.name == "encsname-empty" {
 				continue
 			}
 			c := baseRep(true, et, "password")
